@@ -800,5 +800,32 @@ theorem parse_none_iff (s : List Char) : parse s = none ↔ ¬ ∃ v, Doc v s :=
     | none => rfl
     | some v => exact absurd ⟨v, parse_sound hp⟩ h
 
+/-! ## today's behaviour (pinned tree) against the repaired one -/
+
+/-- Everything today's string reader accepts, the repaired reader accepts with the same result. -/
+theorem parseCharsPinned_sub (s : List Char) :
+    ∀ x, parseCharsPinned s = some x → parseChars s = some x := by
+  fun_induction parseCharsPinned s <;> intro x h
+  all_goals try cases h
+  all_goals try simp_all [parseChars]
+  all_goals first
+    | (rw [parseChars.eq_def]; simp [*]; done)
+    | (have h4 := Nat.not_lt.mpr ‹32 ≤ _›; rw [parseChars.eq_def]; simp [*]; done)
+
+/-- `parseNumber` is `mkNum` applied to the syntactic parts of the token. -/
+theorem parseNumber_eq_parts (s : List Char) :
+    parseNumber s = (numParts s).map fun p => (mkNum p.1.1 p.1.2.1 p.1.2.2.1 p.1.2.2.2, p.2) := by
+  unfold parseNumber numParts
+  simp only
+  split
+  · cases parseFrac (spanDigits (optMinus s).2).2 with
+    | none => rfl
+    | some fr =>
+      obtain ⟨frac, s3⟩ := fr
+      simp only
+      cases parseExp s3 with
+      | none => rfl
+      | some er => rfl
+  · rfl
 
 end Scryer.Json
